@@ -1,6 +1,670 @@
-//! Component `auth` (see /verif/FRAMEWORK.md).
+//! Component `auth` (property C20, see /verif/FRAMEWORK.md and /verif/work/auth_notes.md).
+//!
+//! Both ends run the REAL `tako::comm::do_authentication` over `tokio::io::duplex` pipes framed exactly
+//! like `tako::internal::transfer::transport::make_protocol_builder` (LengthDelimitedCodec, little endian,
+//! `tako::MAX_FRAME_SIZE`).  A man in the middle owns the other end of both pipes, sees the four
+//! handshake frames (m1 = A→B request, m2 = B→A request, m3 = A→B response, m4 = B→A response) and
+//! forwards / drops / substitutes them.  The whole finite table of single-message actions is enumerated.
+//!
+//! Trace: one case = one row of the table = two ops
+//!   op base <keyA> <keyB> <myA> <peerA> <myB> <peerB> <protoA> <protoB>   earlier undisturbed session
+//!   op adv <action…>                                                     main session under the action
+//! each followed by `out res <A> <B>` and `out sent <kind m3> <kind m4>`.
+use crate::util::{GenArgs, Trace};
+use bytes::Bytes;
+use futures::{SinkExt, StreamExt};
+use orion::kdf::SecretKey;
+use serde::{Deserialize, Serialize};
+use std::io::BufRead;
+use std::sync::Arc;
+use tokio::io::{AsyncWriteExt, DuplexStream};
+use tokio_util::codec::{Framed, LengthDelimitedCodec};
 
-pub fn main(mode: &str, _args: &[String]) {
-    eprintln!("component auth: mode {mode} not implemented yet");
-    std::process::exit(2);
+const ROLES: [&str; 4] = ["server", "worker", "hq-server", "hq-client"];
+/// the (my_role, peer_role) pairs that occur in the code base:
+/// tako/src/internal/server/rpc.rs, tako/src/internal/worker/rpc.rs, hyperqueue/src/transfer/connection.rs
+const PAIRS: [(&str, &str); 4] =
+    [("server", "worker"), ("worker", "server"), ("hq-server", "hq-client"), ("hq-client", "hq-server")];
+const KEYS: [&str; 3] = ["none", "k1", "k2"];
+const KEY1: [u8; 32] = [0x11; 32];
+const KEY2: [u8; 32] = [0x22; 32];
+
+// ---------------------------------------------------------------------------------------------
+// Mirrors of tako::internal::messages::auth::* (pub(crate) there). Same serde shape; a `Vec<u8>`
+// serialises under bincode exactly like `serde_bytes` (u64 length + bytes). Every genuine frame is
+// round-tripped through these (see `check_mirror`), so a shape drift is reported, not silently used.
+#[derive(Serialize, Deserialize, Debug, Clone, PartialEq)]
+struct MChallenge {
+    challenge: Vec<u8>,
+}
+#[derive(Serialize, Deserialize, Debug, Clone, PartialEq)]
+enum MMode {
+    NoAuth,
+    Encryption(MChallenge),
+}
+#[derive(Serialize, Deserialize, Debug, Clone, PartialEq)]
+struct MRequest {
+    protocol: u32,
+    role: String,
+    mode: MMode,
+}
+#[derive(Serialize, Deserialize, Debug, Clone, PartialEq)]
+struct MEncResp {
+    response: Vec<u8>,
+    nonce: Vec<u8>,
+}
+#[derive(Serialize, Deserialize, Debug, Clone, PartialEq)]
+struct MError {
+    message: String,
+}
+#[derive(Serialize, Deserialize, Debug, Clone, PartialEq)]
+enum MResponse {
+    NoAuth,
+    Encryption(MEncResp),
+    Error(MError),
+}
+
+fn enc<T: Serialize>(v: &T) -> Vec<u8> {
+    tako::comm::serialize(v).unwrap()
+}
+fn dec_req(b: &[u8]) -> Option<MRequest> {
+    tako::comm::deserialize::<MRequest>(b).ok()
+}
+fn dec_resp(b: &[u8]) -> Option<MResponse> {
+    tako::comm::deserialize::<MResponse>(b).ok()
+}
+
+// ---------------------------------------------------------------------------------------------
+#[derive(Clone, Copy, PartialEq, Debug)]
+struct Cfg {
+    key: usize, // index into KEYS
+    my: &'static str,
+    peer: &'static str,
+    proto: u32,
+}
+
+fn key_of(k: usize) -> Option<Arc<SecretKey>> {
+    match k {
+        0 => None,
+        1 => Some(Arc::new(SecretKey::from_slice(&KEY1).unwrap())),
+        _ => Some(Arc::new(SecretKey::from_slice(&KEY2).unwrap())),
+    }
+}
+
+fn role_static(s: &str) -> Option<&'static str> {
+    ROLES.iter().copied().find(|r| *r == s)
+}
+
+#[derive(Clone, Copy, PartialEq, Debug)]
+enum ReqMod {
+    Proto,
+    Role(&'static str),
+    ChalFlip,
+    ChalTrunc,
+    ChalExt,
+    ModeSwap,
+}
+#[derive(Clone, Copy, PartialEq, Debug)]
+enum RespMod {
+    CtFlip,
+    NonceFlip,
+    CtTrunc,
+    NonceTrunc,
+    NoAuth,
+    Error,
+}
+#[derive(Clone, Copy, PartialEq, Debug)]
+enum Adv {
+    None,
+    Drop(usize),
+    Reflect(usize),
+    Earlier(usize),
+    Parallel(usize),
+    ModReq(usize, ReqMod),
+    ModResp(usize, RespMod),
+    DoubleProto,
+}
+
+impl Adv {
+    fn show(&self) -> String {
+        match self {
+            Adv::None => "none".into(),
+            Adv::Drop(i) => format!("drop {i}"),
+            Adv::Reflect(i) => format!("reflect {i}"),
+            Adv::Earlier(i) => format!("earlier {i}"),
+            Adv::Parallel(i) => format!("parallel {i}"),
+            Adv::ModReq(i, m) => match m {
+                ReqMod::Proto => format!("mod {i} proto"),
+                ReqMod::Role(r) => format!("mod {i} role {r}"),
+                ReqMod::ChalFlip => format!("mod {i} chalflip"),
+                ReqMod::ChalTrunc => format!("mod {i} chaltrunc"),
+                ReqMod::ChalExt => format!("mod {i} chalext"),
+                ReqMod::ModeSwap => format!("mod {i} modeswap"),
+            },
+            Adv::ModResp(i, m) => match m {
+                RespMod::CtFlip => format!("mod {i} ctflip"),
+                RespMod::NonceFlip => format!("mod {i} nonceflip"),
+                RespMod::CtTrunc => format!("mod {i} cttrunc"),
+                RespMod::NonceTrunc => format!("mod {i} noncetrunc"),
+                RespMod::NoAuth => format!("mod {i} noauth"),
+                RespMod::Error => format!("mod {i} error"),
+            },
+            Adv::DoubleProto => "double-proto".into(),
+        }
+    }
+    fn parse(t: &[&str]) -> Option<Adv> {
+        let idx = |s: &str| s.parse::<usize>().ok().filter(|i| (1..=4).contains(i));
+        match t {
+            ["none"] => Some(Adv::None),
+            ["double-proto"] => Some(Adv::DoubleProto),
+            ["drop", i] => idx(i).map(Adv::Drop),
+            ["reflect", i] => idx(i).map(Adv::Reflect),
+            ["earlier", i] => idx(i).map(Adv::Earlier),
+            ["parallel", i] => idx(i).map(Adv::Parallel),
+            ["mod", i, "role", r] => {
+                let (i, r) = (idx(i)?, role_static(r)?);
+                (i <= 2).then_some(Adv::ModReq(i, ReqMod::Role(r)))
+            }
+            ["mod", i, what] => {
+                let i = idx(i)?;
+                if i <= 2 {
+                    Some(Adv::ModReq(i, match *what {
+                        "proto" => ReqMod::Proto,
+                        "chalflip" => ReqMod::ChalFlip,
+                        "chaltrunc" => ReqMod::ChalTrunc,
+                        "chalext" => ReqMod::ChalExt,
+                        "modeswap" => ReqMod::ModeSwap,
+                        _ => return None,
+                    }))
+                } else {
+                    Some(Adv::ModResp(i, match *what {
+                        "ctflip" => RespMod::CtFlip,
+                        "nonceflip" => RespMod::NonceFlip,
+                        "cttrunc" => RespMod::CtTrunc,
+                        "noncetrunc" => RespMod::NonceTrunc,
+                        "noauth" => RespMod::NoAuth,
+                        "error" => RespMod::Error,
+                        _ => return None,
+                    }))
+                }
+            }
+            _ => None,
+        }
+    }
+}
+
+fn apply_req_mod(m: ReqMod, bytes: &[u8]) -> Vec<u8> {
+    let Some(mut r) = dec_req(bytes) else { return bytes.to_vec() };
+    match m {
+        ReqMod::Proto => r.protocol = 1 - r.protocol,
+        ReqMod::Role(x) => r.role = x.to_string(),
+        ReqMod::ChalFlip => {
+            if let MMode::Encryption(c) = &mut r.mode {
+                if let Some(b) = c.challenge.first_mut() {
+                    *b ^= 1;
+                }
+            }
+        }
+        ReqMod::ChalTrunc => {
+            if let MMode::Encryption(c) = &mut r.mode {
+                c.challenge.truncate(15);
+            }
+        }
+        ReqMod::ChalExt => {
+            if let MMode::Encryption(c) = &mut r.mode {
+                c.challenge.push(0);
+            }
+        }
+        ReqMod::ModeSwap => {
+            r.mode = match r.mode {
+                MMode::Encryption(_) => MMode::NoAuth,
+                MMode::NoAuth => MMode::Encryption(MChallenge { challenge: vec![0; 16] }),
+            }
+        }
+    }
+    enc(&r)
+}
+
+/// Bit flips only apply to an `Encryption` response, otherwise the frame is left alone (model: same).
+fn apply_resp_mod(m: RespMod, bytes: &[u8]) -> Vec<u8> {
+    let Some(mut r) = dec_resp(bytes) else { return bytes.to_vec() };
+    match m {
+        RespMod::CtFlip => {
+            if let MResponse::Encryption(e) = &mut r {
+                let n = e.response.len();
+                if n > 0 {
+                    e.response[n / 2] ^= 1;
+                }
+            }
+        }
+        RespMod::NonceFlip => {
+            if let MResponse::Encryption(e) = &mut r {
+                if let Some(b) = e.nonce.first_mut() {
+                    *b ^= 1;
+                }
+            }
+        }
+        RespMod::CtTrunc => {
+            if let MResponse::Encryption(e) = &mut r {
+                e.response.truncate(10);
+            }
+        }
+        RespMod::NonceTrunc => {
+            if let MResponse::Encryption(e) = &mut r {
+                e.nonce.truncate(23);
+            }
+        }
+        RespMod::NoAuth => r = MResponse::NoAuth,
+        RespMod::Error => r = MResponse::Error(MError { message: "x".to_string() }),
+    }
+    enc(&r)
+}
+
+// ---------------------------------------------------------------------------------------------
+type Frame = Option<Vec<u8>>;
+type Fr = Framed<DuplexStream, LengthDelimitedCodec>;
+
+fn framed(s: DuplexStream) -> Fr {
+    // == tako::internal::transfer::transport::make_protocol_builder()
+    LengthDelimitedCodec::builder().little_endian().max_frame_length(tako::MAX_FRAME_SIZE).new_framed(s)
+}
+
+async fn recv(f: &mut Fr) -> Frame {
+    match f.next().await {
+        Some(Ok(b)) => Some(b.to_vec()),
+        _ => None,
+    }
+}
+
+/// deliver a frame, or (None) close the direction so that the receiver sees EOF instead of waiting
+async fn deliver(f: &mut Fr, m: &Frame) {
+    match m {
+        Some(b) => {
+            let _ = f.send(Bytes::from(b.clone())).await;
+        }
+        None => {
+            let _ = f.get_mut().shutdown().await;
+        }
+    }
+}
+
+/// One honest endpoint: the real handshake.
+async fn endpoint(cfg: Cfg, stream: DuplexStream) -> bool {
+    let (mut w, mut r) = framed(stream).split();
+    tako::comm::do_authentication(cfg.proto, cfg.my, cfg.peer, key_of(cfg.key), &mut w, &mut r)
+        .await
+        .is_ok()
+}
+
+#[derive(Clone, Default, Debug)]
+struct Outcome {
+    res_a: bool,
+    res_b: bool,
+    sent: [Frame; 4],
+    delivered: [Frame; 4],
+}
+
+/// Parallel session: a second honest endpoint R2 with configuration `cfg`; returns its own request and,
+/// if `feed` is given, its response to `feed`. R2 then sees EOF (its result is irrelevant).
+async fn parallel_session(cfg: Cfg, feed: Frame) -> (Frame, Frame) {
+    let (r_end, adv_end) = tokio::io::duplex(1 << 16);
+    let adv = async move {
+        let mut f = framed(adv_end);
+        let q2 = recv(&mut f).await;
+        let y = if feed.is_some() {
+            deliver(&mut f, &feed).await;
+            recv(&mut f).await
+        } else {
+            None
+        };
+        drop(f);
+        (q2, y)
+    };
+    let (_res, out) = tokio::join!(endpoint(cfg, r_end), adv);
+    out
+}
+
+fn rewrite_role(bytes: &Frame, role: &str) -> Frame {
+    let b = bytes.as_ref()?;
+    let mut r = dec_req(b)?;
+    r.role = role.to_string();
+    Some(enc(&r))
+}
+
+async fn mitm(cfg_a: Cfg, cfg_b: Cfg, adv: Adv, earlier: Option<&Outcome>, sa: DuplexStream, sb: DuplexStream)
+    -> ([Frame; 4], [Frame; 4]) {
+    let mut fa = framed(sa);
+    let mut fb = framed(sb);
+    let old = |i: usize| -> Frame { earlier.and_then(|e| e.sent[i - 1].clone()) };
+    // ---- requests
+    let m1 = recv(&mut fa).await;
+    let m2 = recv(&mut fb).await;
+    let (mut d1, mut d2) = (m1.clone(), m2.clone());
+    match adv {
+        Adv::Drop(1) => d1 = None,
+        Adv::Drop(2) => d2 = None,
+        Adv::Reflect(1) => d1 = m2.clone(),
+        Adv::Reflect(2) => d2 = m1.clone(),
+        Adv::Earlier(1) => d1 = old(1),
+        Adv::Earlier(2) => d2 = old(2),
+        Adv::Parallel(1) => d1 = parallel_session(cfg_b, None).await.0,
+        Adv::Parallel(2) => d2 = parallel_session(cfg_a, None).await.0,
+        Adv::ModReq(1, m) => d1 = m1.as_ref().map(|b| apply_req_mod(m, b)),
+        Adv::ModReq(2, m) => d2 = m2.as_ref().map(|b| apply_req_mod(m, b)),
+        Adv::DoubleProto => {
+            d1 = m1.as_ref().map(|b| apply_req_mod(ReqMod::Proto, b));
+            d2 = m2.as_ref().map(|b| apply_req_mod(ReqMod::Proto, b));
+        }
+        _ => {}
+    }
+    deliver(&mut fb, &d1).await;
+    deliver(&mut fa, &d2).await;
+    // ---- responses (an endpoint that refused early has closed its pipe: recv gives None)
+    let m3 = recv(&mut fa).await;
+    let m4 = recv(&mut fb).await;
+    let (mut d3, mut d4) = (m3.clone(), m4.clone());
+    match adv {
+        Adv::Drop(3) => d3 = None,
+        Adv::Drop(4) => d4 = None,
+        Adv::Reflect(3) => d3 = m4.clone(),
+        Adv::Reflect(4) => d4 = m3.clone(),
+        Adv::Earlier(3) => d3 = old(3),
+        Adv::Earlier(4) => d4 = old(4),
+        // receiver of m3 is B (own request m2), receiver of m4 is A (own request m1)
+        Adv::Parallel(3) => d3 = parallel_session(cfg_b, rewrite_role(&m2, cfg_b.peer)).await.1,
+        Adv::Parallel(4) => d4 = parallel_session(cfg_a, rewrite_role(&m1, cfg_a.peer)).await.1,
+        Adv::ModResp(3, m) => d3 = m3.as_ref().map(|b| apply_resp_mod(m, b)),
+        Adv::ModResp(4, m) => d4 = m4.as_ref().map(|b| apply_resp_mod(m, b)),
+        _ => {}
+    }
+    deliver(&mut fb, &d3).await;
+    deliver(&mut fa, &d4).await;
+    // nothing more will ever come: close both pipes (data already written stays readable)
+    drop(fa);
+    drop(fb);
+    ([m1, m2, m3, m4], [d1, d2, d3, d4])
+}
+
+async fn run_session(cfg_a: Cfg, cfg_b: Cfg, adv: Adv, earlier: Option<&Outcome>) -> Outcome {
+    let (a_end, adv_a) = tokio::io::duplex(1 << 16);
+    let (b_end, adv_b) = tokio::io::duplex(1 << 16);
+    let (res_a, res_b, (sent, delivered)) =
+        tokio::join!(endpoint(cfg_a, a_end), endpoint(cfg_b, b_end), mitm(cfg_a, cfg_b, adv, earlier, adv_a, adv_b));
+    Outcome { res_a, res_b, sent, delivered }
+}
+
+// ---------------------------------------------------------------------------------------------
+fn show_res(b: bool) -> &'static str {
+    if b { "accept" } else { "refuse" }
+}
+
+fn kind(f: &Frame) -> &'static str {
+    match f {
+        None => "none",
+        Some(b) => match dec_resp(b) {
+            Some(MResponse::NoAuth) => "noauth",
+            Some(MResponse::Encryption(_)) => "enc",
+            Some(MResponse::Error(_)) => "error",
+            None => "undecodable",
+        },
+    }
+}
+
+fn cfg_match(a: &Cfg, b: &Cfg) -> bool {
+    a.key == b.key && a.proto == b.proto && a.peer == b.my && b.peer == a.my
+}
+
+/// the mirror structs must reproduce the genuine frames byte for byte
+fn check_mirror(t: &mut Trace, o: &Outcome) {
+    for i in 0..4 {
+        if let Some(b) = &o.sent[i] {
+            let back = if i < 2 { dec_req(b).map(|r| enc(&r)) } else { dec_resp(b).map(|r| enc(&r)) };
+            if back.as_ref() != Some(b) {
+                t.mon_fail("c20.mirror", "mirror-shape-drift", &format!("frame m{} does not round-trip through the harness mirror structs", i + 1));
+            }
+        }
+    }
+}
+
+fn monitors(t: &mut Trace, a: &Cfg, b: &Cfg, adv: Adv, o: &Outcome) {
+    check_mirror(t, o);
+    let m = cfg_match(a, b);
+    let desc = format!(
+        "A=({},{},{},{}) B=({},{},{},{}) adv={} res={},{}",
+        KEYS[a.key], a.my, a.peer, a.proto, KEYS[b.key], b.my, b.peer, b.proto, adv.show(),
+        show_res(o.res_a), show_res(o.res_b)
+    );
+    if adv == Adv::DoubleProto {
+        // finding "protocol-not-sealed": outside the C20 quantifier (two substitutions); own clause
+        if (o.res_a || o.res_b) && a.proto != b.proto {
+            t.mon_fail("c20.proto_bound", "protocol-not-sealed",
+                &format!("endpoints with different protocol numbers accepted each other after the protocol field of BOTH requests was rewritten: {desc}"));
+        }
+        return;
+    }
+    if m && adv == Adv::None && !(o.res_a && o.res_b) {
+        t.mon_fail("c20.complete", "honest-refused", &format!("matching configuration, undisturbed exchange, not both accept: {desc}"));
+    }
+    if !m && (o.res_a || o.res_b) {
+        t.mon_fail("c20.mismatch", "mismatch-accepted", &format!("configuration mismatch but an end accepted: {desc}"));
+    }
+    // matching conversations: an end accepts only if its own request reached the peer unmodified and the
+    // response it consumed is byte-identical to the response the peer sent in THIS session
+    let same = |i: usize| o.sent[i].is_some() && o.sent[i] == o.delivered[i];
+    if o.res_a && !(m && same(0) && same(3)) {
+        t.mon_fail("c20.sound", "accepted-nongenuine", &format!("A accepted although cfg_match={m} m1_intact={} m4_genuine={}: {desc}", same(0), same(3)));
+    }
+    // an end accepts only after a request that carried ITS protocol number, the role IT expects and the
+    // authentication mode that fits ITS key (Lean: c20_accept_request_checked) - whoever sent it
+    let req_ok = |me: &Cfg, f: &Frame| -> bool {
+        match f.as_ref().and_then(|b| dec_req(b)) {
+            Some(r) => {
+                r.protocol == me.proto && r.role == me.peer && match (&r.mode, me.key) {
+                    (MMode::NoAuth, 0) => true,
+                    (MMode::Encryption(c), k) if k != 0 => c.challenge.len() == 16,
+                    _ => false,
+                }
+            }
+            None => false,
+        }
+    };
+    if o.res_a && !req_ok(a, &o.delivered[1]) {
+        t.mon_fail("c20.sound", "accepted-after-bad-request", &format!("A accepted although the request it received does not carry its protocol/expected role/auth mode: {desc}"));
+    }
+    if o.res_b && !req_ok(b, &o.delivered[0]) {
+        t.mon_fail("c20.sound", "accepted-after-bad-request", &format!("B accepted although the request it received does not carry its protocol/expected role/auth mode: {desc}"));
+    }
+    if o.res_b && !(m && same(1) && same(2)) {
+        t.mon_fail("c20.sound", "accepted-nongenuine", &format!("B accepted although cfg_match={m} m2_intact={} m3_genuine={}: {desc}", same(1), same(2)));
+    }
+}
+
+fn print_outcome(t: &mut Trace, o: &Outcome) {
+    t.out(&format!("res {} {}", show_res(o.res_a), show_res(o.res_b)));
+    t.out(&format!("sent {} {}", kind(&o.sent[2]), kind(&o.sent[3])));
+}
+
+fn parse_base(t: &[&str]) -> Option<(Cfg, Cfg)> {
+    if t.len() != 8 {
+        return None;
+    }
+    let key = |s: &str| KEYS.iter().position(|k| *k == s);
+    let a = Cfg { key: key(t[0])?, my: role_static(t[2])?, peer: role_static(t[3])?, proto: t[6].parse().ok()? };
+    let b = Cfg { key: key(t[1])?, my: role_static(t[4])?, peer: role_static(t[5])?, proto: t[7].parse().ok()? };
+    Some((a, b))
+}
+
+fn show_base(a: &Cfg, b: &Cfg) -> String {
+    format!("base {} {} {} {} {} {} {} {}", KEYS[a.key], KEYS[b.key], a.my, a.peer, b.my, b.peer, a.proto, b.proto)
+}
+
+/// State of one case while ops are executed (shared by gen and replay).
+#[derive(Default)]
+struct CaseState {
+    cfg: Option<(Cfg, Cfg)>,
+    earlier: Option<Outcome>,
+}
+
+fn exec_op(rt: &tokio::runtime::Runtime, t: &mut Trace, st: &mut CaseState, toks: &[&str]) {
+    match toks.first().copied() {
+        Some("base") => match parse_base(&toks[1..]) {
+            Some((a, b)) => {
+                let o = rt.block_on(run_session(a, b, Adv::None, None));
+                print_outcome(t, &o);
+                monitors(t, &a, &b, Adv::None, &o);
+                st.cfg = Some((a, b));
+                st.earlier = Some(o);
+            }
+            None => t.out("!bad-op"),
+        },
+        Some("adv") => match (st.cfg, Adv::parse(&toks[1..])) {
+            (Some((a, b)), Some(adv)) => {
+                let o = rt.block_on(run_session(a, b, adv, st.earlier.as_ref()));
+                print_outcome(t, &o);
+                monitors(t, &a, &b, adv, &o);
+            }
+            _ => t.out("!bad-op"),
+        },
+        _ => t.out("!bad-op"),
+    }
+}
+
+// ---------------------------------------------------------------------------------------------
+/// Actions applicable to a pair of configurations (static applicability: challenge modifications need
+/// an `Encryption` request, i.e. a keyed sender; response bit flips are decided at run time).
+fn actions(a: &Cfg, b: &Cfg) -> Vec<Adv> {
+    let mut v = vec![Adv::None];
+    for i in 1..=4 {
+        v.push(Adv::Drop(i));
+        v.push(Adv::Reflect(i));
+        v.push(Adv::Earlier(i));
+        v.push(Adv::Parallel(i));
+    }
+    for i in 1..=2 {
+        let sender = if i == 1 { a } else { b };
+        v.push(Adv::ModReq(i, ReqMod::Proto));
+        for r in ROLES {
+            if r != sender.my {
+                v.push(Adv::ModReq(i, ReqMod::Role(r)));
+            }
+        }
+        if sender.key != 0 {
+            v.push(Adv::ModReq(i, ReqMod::ChalFlip));
+            v.push(Adv::ModReq(i, ReqMod::ChalTrunc));
+            v.push(Adv::ModReq(i, ReqMod::ChalExt));
+        }
+        v.push(Adv::ModReq(i, ReqMod::ModeSwap));
+    }
+    for i in 3..=4 {
+        for m in [RespMod::CtFlip, RespMod::NonceFlip, RespMod::CtTrunc, RespMod::NonceTrunc, RespMod::NoAuth, RespMod::Error] {
+            v.push(Adv::ModResp(i, m));
+        }
+    }
+    v
+}
+
+fn table() -> Vec<(Cfg, Cfg, Adv)> {
+    let mut rows = vec![];
+    for ka in 0..3 {
+        for kb in 0..3 {
+            for pa in PAIRS {
+                for pb in PAIRS {
+                    for proto_a in 0..2u32 {
+                        for proto_b in 0..2u32 {
+                            let a = Cfg { key: ka, my: pa.0, peer: pa.1, proto: proto_a };
+                            let b = Cfg { key: kb, my: pb.0, peer: pb.1, proto: proto_b };
+                            for adv in actions(&a, &b) {
+                                rows.push((a, b, adv));
+                            }
+                        }
+                    }
+                }
+            }
+        }
+    }
+    rows
+}
+
+/// `--double-proto`: NOT part of the C20 table (two substitutions). Same key option, complementary roles,
+/// different protocol numbers; the protocol field of both requests is rewritten.
+fn double_proto_table() -> Vec<(Cfg, Cfg, Adv)> {
+    let mut rows = vec![];
+    for k in 0..3 {
+        for pa in PAIRS {
+            for (proto_a, proto_b) in [(0u32, 1u32), (1, 0)] {
+                let a = Cfg { key: k, my: pa.0, peer: pa.1, proto: proto_a };
+                let b = Cfg { key: k, my: pa.1, peer: pa.0, proto: proto_b };
+                rows.push((a, b, Adv::DoubleProto));
+            }
+        }
+    }
+    rows
+}
+
+fn runtime() -> tokio::runtime::Runtime {
+    // paused clock: should an end ever wait (it must not: a dropped frame closes the direction), the
+    // 15 s AUTH_TIMEOUT elapses in virtual time instead of stalling the run
+    tokio::runtime::Builder::new_current_thread().enable_all().start_paused(true).build().unwrap()
+}
+
+fn gen_main(args: &[String]) {
+    let g = GenArgs::parse(args);
+    let rows = if g.has("--double-proto") { double_proto_table() } else { table() };
+    let n = rows.len();
+    if g.has("--count") {
+        println!("{n}");
+        return;
+    }
+    let rt = runtime();
+    let mut t = Trace::new();
+    let mut k = 0u64;
+    for (idx, (a, b, adv)) in rows.iter().enumerate() {
+        if idx as u64 % g.nshards != g.shard {
+            continue;
+        }
+        t.case(idx as u64, g.case_seed(k), &format!("exhaustive=1 rows={n} table={}", if g.has("--double-proto") { "double-proto" } else { "c20" }));
+        k += 1;
+        let mut st = CaseState::default();
+        for op in [show_base(a, b), format!("adv {}", adv.show())] {
+            t.op(&op);
+            let toks: Vec<&str> = op.split(' ').collect();
+            exec_op(&rt, &mut t, &mut st, &toks);
+        }
+        t.end();
+    }
+    t.flush();
+}
+
+fn replay_main() {
+    let rt = runtime();
+    let mut t = Trace::new();
+    let mut st = CaseState::default();
+    for line in std::io::stdin().lock().lines() {
+        let line = line.unwrap();
+        let toks: Vec<&str> = line.split(' ').filter(|x| !x.is_empty()).collect();
+        match toks.first().copied() {
+            Some("case") => {
+                st = CaseState::default();
+                t.line(&toks.join(" "));
+            }
+            Some("op") => {
+                t.line(&toks.join(" "));
+                exec_op(&rt, &mut t, &mut st, &toks[1..]);
+            }
+            Some("end") => t.end(),
+            _ => {}
+        }
+    }
+    t.flush();
+}
+
+pub fn main(mode: &str, args: &[String]) {
+    match mode {
+        "gen" => gen_main(args),
+        "replay" => replay_main(),
+        _ => {
+            eprintln!("usage: hqv auth gen --seed S --shard i/n --cases N --tier T [--double-proto] [--count] | hqv auth replay");
+            std::process::exit(2);
+        }
+    }
 }
